@@ -803,6 +803,7 @@ type vfdWrite struct {
 	Finished  bool // SaveFinished (else SaveCurrent)
 	ArgState  Status
 	ArgEpoch  uint32
+	Arg       *DBState // the object handed to the store (only valid inside onWrite)
 	Err       error
 	CurBefore []byte
 	FinBefore []byte
@@ -835,7 +836,7 @@ func (s *vfdStoreTap) write(id string, st *DBState, finished bool) error {
 	defer s.mu.Unlock()
 	w := vfdWrite{Gid: vfdGid(), Finished: finished}
 	if st != nil {
-		w.ArgState, w.ArgEpoch = st.State, st.Epoch
+		w.ArgState, w.ArgEpoch, w.Arg = st.State, st.Epoch, st
 	}
 	w.CurBefore, w.FinBefore = vfdRaw(s.inner, id)
 	if finished {
@@ -850,6 +851,7 @@ func (s *vfdStoreTap) write(id string, st *DBState, finished bool) error {
 	if s.onWrite != nil {
 		s.onWrite(s.node, &s.writes[len(s.writes)-1])
 	}
+	s.writes[len(s.writes)-1].Arg = nil
 	return w.Err
 }
 
